@@ -11,7 +11,13 @@ PROPS = {
                   "AllocIP (real eni.Manager + Local/Trunk/CRDV2 allocators over a fake API server), reply checked "
                   "against scenario ground truth and a big-integer gateway reference; after every ADD the real GetIPInfo (CHECK/DEL) is asked for the "
                   "same sandbox, put under the same oracle and compared with the ADD reply; the ADD reply is then marshalled and fed to the "
-                  "plugin's real parseSetupConf (round-trip + table/metamorphic check of getDatePath)",
+                  "plugin's real parseSetupConf and the GetIPInfo reply to the real parseTearDownConf (DEL) and parseCheckConf (CHECK), which must "
+                  "recover the addresses, gateway, interface name, ENI index and flags the daemon sent (and ADD recovered); datapath: CHECK == ADD == "
+                  "T(ipType, trunk, vlan mode); DEL is judged against the table WITHOUT trunking, T(ipType, false, vlan mode) - teardown does not "
+                  "distinguish trunk members (literal false in parseTearDownConf, doCmdDel only has ipvlan/policy-route teardown branches and "
+                  "GenericTearDown removes everything else); that is still a mapping determined by IP type, trunking and VLAN mode, and the "
+                  "statement does not demand DEL == ADD "
+                  "(round-trip + table/metamorphic check of getDatePath)",
         rule="cases drawn by rapid generators (allocation world: legacy pool / exclusive ENI / trunk PodENI / CRD node "
              "binding / CRD PodENI, ipv4|dual|ipv6, 1-4 allocations, CNI conf, runtime bandwidth); non-trivial = reply "
              "with >= 2 NetConfs, or dual-stack, or a runtime bandwidth override, or a CRD node holding stale records of an earlier incarnation of the pod (for the defaulting test: list of >= 2 "
@@ -25,8 +31,9 @@ PROPS = {
             "repeats the request 6 times because the daemon ranges over Go maps",
             "pool worlds serve the request from a cached free address (no cloud call); vSwitch CIDRs are /8../29 and /32../120 "
             "with pod addresses never on the network, gateway or last two addresses (the cloud's rule)",
-            "ENI MAC addresses are empty because link.GetDeviceNumber "
-            "needs a physical device; the ENI index is therefore not part of the round-trip",
+            "ENI MAC addresses are empty or the address of a physical network device of the machine running the check (found through sysfs + "
+            "net.Interfaces, e.g. eth0), because link.GetDeviceNumber needs an existing plain device; with such a MAC the ENI index recovered by "
+            "ADD/DEL/CHECK must be that device's index; on a machine without such a device only empty MACs are generated",
             "NetConf messages fed directly to the parser have the structure AllocIP emits (BasicInfo with PodIP/PodCIDR/GatewayIP/"
             "ServiceCIDR present); IP types are the three enum values, parse round-trip uses the two the daemon emits",
         ],
